@@ -18,14 +18,24 @@ open Py
 
 abbrev Bytes := List UInt8
 
+def b8 (n : Nat) : UInt8 := UInt8.ofNat n
+
+/-- the UTF-8 encoding of one character, written arithmetically (RFC 3629) -/
+def encChar (c : Char) : Bytes :=
+  let v := c.toNat
+  if v < 0x80 then [b8 v]
+  else if v < 0x800 then [b8 (0xC0 + v / 64), b8 (0x80 + v % 64)]
+  else if v < 0x10000 then [b8 (0xE0 + v / 4096), b8 (0x80 + v / 64 % 64), b8 (0x80 + v % 64)]
+  else [b8 (0xF0 + v / 262144), b8 (0x80 + v / 4096 % 64), b8 (0x80 + v / 64 % 64), b8 (0x80 + v % 64)]
+
 /-- `str.encode()` (UTF-8). -/
-def utf8 (s : Str) : Bytes := s.flatMap String.utf8EncodeChar
+def utf8 (s : Str) : Bytes := s.flatMap encChar
 
 /-! ### `bytes.decode('utf8', 'replace')` — CPython's decoder (Objects/stringlib/codecs.h
 `utf8_decode` + the `replace` error handler): every maximal ill-formed subpart becomes one
 U+FFFD; a truncated but so-far-valid sequence at the end of the input becomes one U+FFFD. -/
 
-def isCont (b : UInt8) : Bool := 0x80 ≤ b && b ≤ 0xBF
+def isCont (b : UInt8) : Bool := 0x80 ≤ b.toNat && b.toNat ≤ 0xBF
 def repl : Char := Char.ofNat 0xFFFD
 
 def mk2 (a b : UInt8) : Char := Char.ofNat ((a.toNat - 0xC0) * 64 + (b.toNat - 0x80))
@@ -37,25 +47,25 @@ def mk4 (a b c d : UInt8) : Char :=
 
 /-- The first decoded character of `a :: rest` and how many bytes of `rest` it consumes. -/
 def decodeStep (a : UInt8) (rest : Bytes) : Char × Nat :=
-  if a < 0x80 then (Char.ofNat a.toNat, 0)
-  else if a < 0xC2 then (repl, 0)                       -- invalid start byte
-  else if a < 0xE0 then
+  if a.toNat < 0x80 then (Char.ofNat a.toNat, 0)
+  else if a.toNat < 0xC2 then (repl, 0)                 -- invalid start byte
+  else if a.toNat < 0xE0 then
     match rest with
     | [] => (repl, 0)                                   -- unexpected end of data
     | b :: _ => if isCont b then (mk2 a b, 1) else (repl, 0)
-  else if a < 0xF0 then
+  else if a.toNat < 0xF0 then
     match rest with
     | [] => (repl, 0)
     | b :: r2 =>
-      if !isCont b || (a == 0xE0 && b < 0xA0) || (a == 0xED && b ≥ 0xA0) then (repl, 0)
+      if !isCont b || (a.toNat == 0xE0 && b.toNat < 0xA0) || (a.toNat == 0xED && b.toNat ≥ 0xA0) then (repl, 0)
       else match r2 with
         | [] => (repl, 1)                               -- unexpected end: whole tail, one U+FFFD
         | c :: _ => if isCont c then (mk3 a b c, 2) else (repl, 1)
-  else if a < 0xF5 then
+  else if a.toNat < 0xF5 then
     match rest with
     | [] => (repl, 0)
     | b :: r2 =>
-      if !isCont b || (a == 0xF0 && b < 0x90) || (a == 0xF4 && b ≥ 0x90) then (repl, 0)
+      if !isCont b || (a.toNat == 0xF0 && b.toNat < 0x90) || (a.toNat == 0xF4 && b.toNat ≥ 0x90) then (repl, 0)
       else match r2 with
         | [] => (repl, 1)
         | c :: r3 =>
